@@ -1,0 +1,16 @@
+"""Verification hooks (off unless the environment variable RINDPHI_ISLA_VERIF is "1" and a sink
+is installed).  Used by an external conformance harness to record solver steps."""
+import os
+
+ENABLED = os.environ.get("RINDPHI_ISLA_VERIF") == "1"
+_sink = None
+
+
+def set_sink(sink):
+    global _sink
+    _sink = sink
+
+
+def emit(event, **fields):
+    if _sink is not None:
+        _sink(event, fields)
